@@ -38,6 +38,40 @@ class Snapshot(object):
         self.show = warnings.showwarning
         self.impl = getattr(warnings, '_showwarnmsg_impl', None)
         self.path = list(sys.path)
+        # further process-global state a run can reach through module lookups
+        self.environ = dict(os.environ)
+        self.cwd = os.getcwd()
+        self.argv = list(sys.argv)
+        self.modules = set(sys.modules)
+
+    def extras_diff(self, lookup_only=()):
+        """differences in os.environ, cwd, sys.argv; names that were only LOOKED UP (REQUIRES(module:…), name
+        resolution) must not have been imported"""
+        out = []
+        if dict(os.environ) != self.environ:
+            ch = sorted(k for k in set(os.environ) | set(self.environ) if os.environ.get(k) != self.environ.get(k))
+            out.append('os.environ changed: %r' % ch[:5])
+        try:
+            cwd = os.getcwd()
+        except OSError as e:
+            cwd = repr(e)
+        if cwd != self.cwd:
+            out.append('cwd changed: %r -> %r' % (self.cwd, cwd))
+        if list(sys.argv) != self.argv:
+            out.append('sys.argv changed: %r -> %r' % (self.argv, list(sys.argv)))
+        imported = [n for n in lookup_only if n in sys.modules and n not in self.modules]
+        if imported:
+            out.append('modules that were only looked up got imported: %r' % imported)
+        return out
+
+    def restore_extras(self):
+        os.environ.clear()
+        os.environ.update(self.environ)
+        try:
+            os.chdir(self.cwd)
+        except OSError:
+            pass
+        sys.argv[:] = self.argv
 
     def _oid(self, o, orig, oid, objs):
         if o is orig:
@@ -74,6 +108,72 @@ class Snapshot(object):
         if hasattr(warnings, '_filters_mutated'):
             warnings._filters_mutated()
         sys.path[:] = self.path
+
+
+PATH_VARIANTS = [None, 'empty-front', 'empty-middle', 'empty-end', 'dot-front', 'dup', 'empty-dup', 'empty-and-dot']
+
+
+class PathVariant(object):
+    """give sys.path one of the shapes a real process has — '' for the current directory (python -c, stdin, REPL),
+    '.', duplicated entries — and make the scratch directory the current directory, so that '' resolves the
+    generated modules; everything is put back on exit"""
+
+    def __init__(self, variant, tmpdir):
+        self.variant = variant
+        self.tmpdir = tmpdir
+
+    def __enter__(self):
+        self.saved = list(sys.path)
+        self.cwd = os.getcwd()
+        v = self.variant
+        if v is None:
+            return self
+        os.chdir(self.tmpdir)
+        p = [x for x in sys.path if x not in ('', '.')]
+        mid = max(1, len(p) // 2)
+        if v == 'empty-front':
+            p.insert(0, '')
+        elif v == 'empty-middle':
+            p.insert(mid, '')
+        elif v == 'empty-end':
+            p.append('')
+        elif v == 'dot-front':
+            p.insert(0, '.')
+        elif v == 'dup':
+            p.insert(mid, p[-1])
+            p.append(p[0])
+        elif v == 'empty-dup':
+            p.insert(0, '')
+            p.insert(mid, '')
+        elif v == 'empty-and-dot':
+            p.insert(1, '')
+            p.append('.')
+        sys.path[:] = p
+        return self
+
+    def __exit__(self, *a):
+        sys.path[:] = self.saved
+        try:
+            os.chdir(self.cwd)
+        except OSError:
+            pass
+
+
+_FRESH = [0]
+
+
+def fresh_name(tag='q'):
+    """a module name this process never looked up (directive._MODNAME_EXISTS_CACHE would hide a second lookup)"""
+    _FRESH[0] += 1
+    return 'xv12%s_%d_%d' % (tag, os.getpid(), _FRESH[0])
+
+
+def make_existing(tmpdir, tag='e'):
+    """a never-seen module that EXISTS in the scratch directory"""
+    n = fresh_name(tag)
+    with open(os.path.join(tmpdir, n + '.py'), 'w') as f:
+        f.write('X = 1\n')
+    return n
 
 
 # ------------------------------------------------------------------ statements of generated bodies
@@ -115,6 +215,11 @@ def part_lines(part, k):
             out.append(("print('p%d')" % k, None, {'ops': []}))
         elif e == 'await':
             out.append(('await asyncio.sleep(0)', None, {'ops': []}))
+        elif e.startswith('rq:'):
+            # a by-name module lookup with a never-seen name; `-REQUIRES` evaluates the requirement and never skips
+            out.append(('# xdoctest: -REQUIRES(module:%s)' % e[3:], None, {'ops': []}))
+        elif e.startswith('rqi:'):
+            out.append(("print('p%d')  # xdoctest: -REQUIRES(module:%s)" % (k, e[4:]), None, {'ops': []}))
         else:
             out.append((op_stmt(e), None, {'ops': [e]}))
     kind = part['kind']
@@ -230,8 +335,11 @@ def run_doctest_case(spec, tmpdir, name):
     outer.__enter__()
     if werr:
         warnings.simplefilter('error')      # the process runs with warnings turned into errors
+    pv = PathVariant(spec.get('path_variant'), tmpdir)
+    pv.__enter__()
     snap = Snapshot()
     exc = None
+    extras = []
     try:
         try:
             ex.run(on_error=spec.get('on_error', 'return'), verbose=0)
@@ -240,8 +348,11 @@ def run_doctest_case(spec, tmpdir, name):
         objs = dict(getattr(sys, 'xv12_OBJ', {}))     # registered by the generated module, even if its import fails later
         after = snap.render_now(objs)
         loop = snap.loop_running()
+        extras = snap.extras_diff(spec.get('lookup_only', ()))
     finally:
         snap.restore()
+        snap.restore_extras()
+        pv.__exit__()
         outer.__exit__(None, None, None)
         sys.modules.pop(name, None)
         if hasattr(sys, 'xv12_OBJ'):
@@ -253,8 +364,8 @@ def run_doctest_case(spec, tmpdir, name):
                               1 if werr else 0)
     line = '\t'.join(['runbracket', '1,2,3,4,5', '7,8', enc_list(snap.path), pre] + parts)
     return {'model_line': line, 'observed': '%s %s' % (coarse(real_end), after), 'before': snap.render_before(),
-            'after': after, 'loop': loop, 'source': src, 'real_end': real_end, 'failed': failed,
-            'exc': repr(exc)[:200] if exc is not None else None}
+            'after': after, 'loop': loop, 'source': src, 'real_end': real_end, 'failed': failed, 'extras': extras,
+            'path_before': snap.path, 'exc': repr(exc)[:200] if exc is not None else None}
 
 
 def normalize_model(ans):
@@ -397,3 +508,69 @@ def run_ppc_history(path0, events):
     finally:
         sys.path[:] = saved
     return '\t'.join(out)
+
+
+# ------------------------------------------------------------------ by-name lookups
+LOOKUP_ACTIONS = ['module_exists', 'modname_to_modpath', 'static_modname_to_modpath', 'is_modname_importable', 'rectify',
+                  'requires_directive', 'doctest_module_by_name', 'doctest_module_by_name_list']
+
+
+def run_lookup_case(spec, tmpdir):
+    """spec: action, path_variant, exists(bool). One by-name lookup of a never-seen module name; the process state
+    (exact sys.path list, environ, cwd, argv, sys.modules, stdout/filters) before and after"""
+    from xdoctest import directive, static_analysis, core, runner
+    from xdoctest.utils import util_import
+    action = spec['action']
+    by_name_run = action.startswith('doctest_module')
+    if spec.get('exists') or by_name_run:
+        name = fresh_name('m')
+        with open(os.path.join(tmpdir, name + '.py'), 'w') as f:
+            f.write('def f():\n    """\n    Example:\n        >>> # xdoctest: -REQUIRES(module:%s)\n        >>> print(1)\n        1\n    """\n'
+                    % fresh_name('z'))
+    else:
+        name = fresh_name('n')
+    pv = PathVariant(spec.get('path_variant'), tmpdir)
+    pv.__enter__()
+    if spec.get('path_variant') in (None, 'dot-front', 'dup') and (spec.get('exists') or by_name_run):
+        sys.path.append(tmpdir)           # reachable through an explicit entry instead of '' / '.'
+    snap = Snapshot()
+    exc = None
+    result = None
+    try:
+        try:
+            buf = io.StringIO()
+            with contextlib.redirect_stdout(buf):
+                if action == 'module_exists':
+                    result = directive._module_exists(name)
+                elif action == 'modname_to_modpath':
+                    result = util_import.modname_to_modpath(name) is not None
+                elif action == 'static_modname_to_modpath':
+                    result = static_analysis.modname_to_modpath(name) is not None
+                elif action == 'is_modname_importable':
+                    result = static_analysis.is_modname_importable(name)
+                elif action == 'rectify':
+                    try:
+                        result = core._rectify_to_modpath(name) is not None
+                    except ValueError:
+                        result = False
+                elif action == 'requires_directive':
+                    result = directive._is_requires_satisfied('module:' + name)
+                elif action == 'doctest_module_by_name':
+                    r = runner.doctest_module(name, command='all', argv=[''], verbose=0)
+                    result = (r.get('n_passed'), r.get('n_failed'))
+                elif action == 'doctest_module_by_name_list':
+                    r = runner.doctest_module(name, command='list', argv=[''], verbose=0)
+                    result = r.get('action')
+        except BaseException as e:   # noqa
+            exc = e
+        # redirect_stdout is closed here: sys.stdout is what it was
+        after = snap.render_now({})
+        extras = snap.extras_diff(() if by_name_run else (name,))
+        after_path = list(sys.path)
+    finally:
+        snap.restore()
+        snap.restore_extras()
+        pv.__exit__()
+        sys.modules.pop(name, None)
+    return {'name': name, 'result': result, 'exc': repr(exc)[:200] if exc is not None else None, 'before': snap.render_before(),
+            'after': after, 'extras': extras, 'path_before': snap.path, 'path_after': after_path}
